@@ -322,6 +322,24 @@ theorem tp_rtruediv (p : TP) (key : TArg) (hk : TArg.foreign p.host key = false)
     ↓reduceIte, List.map_cons, List.map_nil, Except.bind]
   rfl
 
+theorem relativeTo_consistent {p r : PP} {a : List PArg} (h : p.relativeTo a = .ok r) :
+    r.Consistent := by
+  unfold PP.relativeTo at h
+  split at h
+  · simp at h
+  · cases hn : PP.new a with
+    | error e => simp [hn, bind, Except.bind] at h
+    | ok o =>
+      cases hi : p.isRelativeTo1 o with
+      | error e => simp [hn, hi, bind, Except.bind] at h
+      | ok b =>
+        simp only [hn, hi, bind, Except.bind, pure, Except.pure] at h
+        split at h
+        · simp only [Except.ok.injEq] at h
+          subst h
+          exact ofRaw_consistent _
+        · simp at h
+
 theorem tp_relativeTo (p : TP) (args : List TArg) :
     p.relativeTo args =
       (TP.prepareArgs p.host args).bind fun a => (p.path.relativeTo a).map (lift p.host) := by
@@ -333,22 +351,7 @@ theorem tp_relativeTo (p : TP) (args : List TArg) :
     | error e => simp [bind, Except.bind, Except.map, h]
     | ok r =>
       simp only [bind, Except.bind, Except.map, h]
-      apply wrap_consistent
-      unfold PP.relativeTo at h
-      split at h
-      · simp at h
-      · cases hn : PP.new a with
-        | error e => simp [hn, bind, Except.bind] at h
-        | ok o =>
-          cases hi : p.path.isRelativeTo1 o with
-          | error e => simp [hn, hi, bind, Except.bind] at h
-          | ok b =>
-            simp only [hn, hi, bind, Except.bind, pure, Except.pure] at h
-            split at h
-            · simp only [Except.ok.injEq] at h
-              subst h
-              exact ofRaw_consistent _
-            · simp at h
+      exact wrap_consistent p.host (relativeTo_consistent h)
 
 theorem collectRaw_exc (args : List PArg) (e : Exc) (h : PP.collectRaw args = .error e) :
     e = .typeError := by
